@@ -91,7 +91,9 @@ func NewFromDefs(defs *schema.Definitions, tr *quiesce.Tracker, o Options) (*Ins
 	if o.MockClock {
 		fan := event.NewFanOut()
 		tracer := tracing.NewTracer(ctx)
-		builder := event.DefinitionInstanceBuildingChain(timer.EventDefinitionInstanceBuilder(ctx, fan, tracer))
+		// (as package model of the repository does: timer builder first, the
+		// plain wrapping builder for every other kind of definition)
+		builder := event.DefinitionInstanceBuildingChain(timer.EventDefinitionInstanceBuilder(ctx, fan, tracer), event.WrappingDefinitionInstanceBuilder)
 		opts = append(opts, bpmn.WithTracer(tracer), bpmn.WithProcessEventDefinitionInstanceBuilder(builder),
 			bpmn.WithEventEgress(fan), bpmn.WithEventIngress(fan))
 	}
